@@ -82,6 +82,10 @@ func main() {
 	}
 	f.Close()
 	time.Local = realLocal
+	// The Go runtime loads the local zone lazily (TZ, /etc/localtime) the first time a
+	// Local time is inspected; with parsing pinned to UTC nothing has done so yet. Load
+	// it now: it is process start-up of the runtime, not something linting does.
+	_, _ = time.Now().Zone()
 	out := make([]string, len(items))
 	unstable := make([]bool, len(items))
 	if *mark {
